@@ -15,10 +15,14 @@
 EXTENDS Naturals, Sequences, FiniteSets, TLC
 CONSTANTS MaxOps, Batches, Dev
 
-Descs == {"A", "Aplus", "B"}                       \* A and Aplus share a table name; Aplus has one more field
-NameOf(d) == IF d = "B" THEN "tb" ELSE "ta"
-FieldsOf(d) == CASE d = "A" -> <<"a", "n">> [] d = "Aplus" -> <<"a", "n", "extra">> [] d = "B" -> <<"q", "b", "ts", "p", "ip">>
-Tables == {"ta", "tb"}
+\* A, Aplus and Aplus2 share a table name and grow by one field each (the table evolves TWICE in one session);
+\* C is a type whose name begins with "sqlite" (SQLite's own tables begin with "sqlite_": the reader must not
+\* confuse the two)
+Descs == {"A", "Aplus", "Aplus2", "B", "C"}
+NameOf(d) == CASE d = "B" -> "tb" [] d = "C" -> "tc" [] OTHER -> "ta"
+FieldsOf(d) == CASE d = "A" -> <<"a", "n">> [] d = "Aplus" -> <<"a", "n", "extra">> [] d = "Aplus2" -> <<"a", "n", "extra", "extra2">>
+                 [] d = "B" -> <<"q", "b", "ts", "p", "ip">> [] d = "C" -> <<"q">>
+Tables == {"ta", "tb", "tc"}
 
 VARIABLES cols,       \* table -> sequence of column names (<<>> = no such table)      [writer connection]
           rows,       \* table -> sequence of row ids in insert order                   [writer connection]
